@@ -29,6 +29,22 @@ def monitor(sub, c, o, out, ex):
         second = out["obs"].get("%d:second" % ex["index"])
         END = ("END",)
         mode = c["consume"]
+        # every item whose frame had arrived COMPLETELY before the break is delivered: none is lost behind an earlier failure
+        from execnet.gateway_base import Message
+
+        complete = sum(1 for code, cid in out.get("w2i_complete", []) if code == Message.CHANNEL_DATA and cid == o.get("id"))
+        if mode in ("receive", "iter", "callback", "callback_late", "callback_mid", "waitclose_then_receive", "callback_raises_local") and ex.get("cut") is not None:
+            n_items = sum(1 for x in got if not (x == END or x == list(END)))
+            expect = min(complete, 2) if mode == "callback_raises_local" else complete
+            if mode == "callback_mid" and o.get("go_refused"):
+                expect = None
+            if expect is not None and n_items < min(expect, len(want)):
+                sub.fail("loss:completely-arrived-items-not-delivered:" + mode, {**ex, "complete_frames": complete, "delivered": n_items})
+        if mode == "callback_raises_local":
+            items = [canon(x) for x in got if not (x == END or x == list(END))]
+            if items != want[: len(items)]:
+                sub.fail("loss:callback-items-not-a-prefix-of-sent", ex)
+            return
         if mode == "callback_end_raises":
             mode = "callback"
         if mode.startswith("callback"):
@@ -103,6 +119,9 @@ def main(tier, seed, replay=None):
             for c in prog:
                 if "items" in c and len(c["items"]) > 4:
                     c["items"] = c["items"][:4]
+            if i % 5 == 4:
+                # a data callback on the surviving side that raises while the connection goes away
+                prog[0] = {"kind": "produce", "tag": "t0", "items": list(range(rng.randint(2, 4))), "consume": "callback_raises_local"}
             jobs.append((prog, rng.getrandbits(30), "socket" if i % 2 else "popen", None, None))
     for prog, sd, io_kind0, cuts, schedule in jobs:
         io_kind = io_kind0
@@ -127,12 +146,14 @@ def main(tier, seed, replay=None):
                 io_kind = "socket_rst" if k % 2 else "socket"
             r = random.Random(sd * 1009 + k)
             chooser = S.ReplayChooser(schedule) if schedule is not None else (S.RandomChooser(r) if k % 3 else S.PCTChooser(r, 3, 400))
-            out = CC.run_program(prog, chooser, sd, cut_w2i=k, io_kind=io_kind, line_budget=(replay["example"].get("line_budget", 0) if replay else 0))
+            both = bool(replay["example"].get("cut_both")) if replay else (k % 3 != 0)   # mostly: the peer DIED (writes meet EPIPE)
+            out = CC.run_program(prog, chooser, sd, cut_w2i=k, io_kind=io_kind, cut_both=both, line_budget=(replay["example"].get("line_budget", 0) if replay else 0))
             nruns += 1
             cuts_done += 1
-            exb = {"prog": prog, "schedule": out["schedule"], "seed": sd, "cut": k, "io_kind": io_kind, "result": out["result"]}
-            ck.case((repr(prog), k, io_kind, tuple(out["schedule"][:60])), nontrivial=True)
+            exb = {"prog": prog, "schedule": out["schedule"], "seed": sd, "cut": k, "io_kind": io_kind, "cut_both": both, "result": out["result"]}
+            ck.case((repr(prog), k, io_kind, both, tuple(out["schedule"][:60])), nontrivial=True)
             ck.count("cut_" + io_kind)
+            ck.count("cut_both_directions" if both else "cut_one_direction")
             if nruns % 211 == 1:
                 ck.sample({**exb, "obs": CC.compact({str(a): b for a, b in out["obs"].items()}), "final": out["final"]})
             if out["result"] != "stop":
@@ -150,7 +171,7 @@ def main(tier, seed, replay=None):
                 monitor(sub, c, o, out, ex)
             fin = out["final"]
             ex = {**exb, "final": fin}
-            if out["w2i_total"] > k:  # the stream really was cut
+            if out["w2i_total"] > k and fin.get("cut_hit_at_checks", True):  # the stream really was cut, before the gateway was examined
                 if fin.get("hasreceiver"):
                     sub.fail("after-loss:gateway-still-claims-a-receiver", ex)
                 for name in ("send", "newchannel", "remote_exec"):
